@@ -316,6 +316,9 @@ SPECIAL = [
     ("typing.ClassVar[int]", ["classvar"]), ("typing.ClassVar[str]", ["classvar"]),
     ("typing.ClassVar[list[int]]", ["classvar"]), ("typing.ClassVar", ["classvar"]),
     ("typing.Final[typing.Literal[1]]", ["final"]),
+    ("typing.ClassVar[typing.Literal[1]]", ["classvar"]), ("typing.ClassVar[typing.Literal[1, 2]]", ["classvar"]),
+    ("typing.Final[typing.Literal[1, None]]", ["final"]),
+    ("typing.ClassVar[typing.Optional[int]]", ["classvar"]), ("typing.Final[typing.Optional[int]]", ["final"]),
     ("T", ["typevar"]), ("TBound", ["typevar"]), ("TCons", ["typevar"]),
     ("typing.Callable", ["callable-form"]), ("cabc.Callable", ["callable-form"]),
     ("typing.Callable[[int], str]", ["callable-form"]), ("cabc.Callable[[int], str]", ["callable-form"]),
@@ -359,7 +362,7 @@ WRAP_SUBSET = [
     "cabc.Sequence[int]", "typing.Mapping[str, int]", "cabc.Collection[int]", "typing.Dict", "typing.Mapping",
     "re.Pattern[str]",
     "typing.Optional[int]", "int | None", "typing.Union[int, str]", "int | str", "typing.Literal[1, 'a']",
-    "typing.Literal[1, None]", "typing.Final[str]", "typing.ClassVar[str]",
+    "typing.Literal[1, None]", "typing.Final[str]", "typing.ClassVar[str]", "typing.ClassVar[typing.Literal[1]]", "typing.Final[typing.Literal[1]]",
     # Y sides (and missing X sides) of the reordered twins judged through wrappers
     "typing.Union[str, int]", "str | int", "typing.Literal[1, 2]", "typing.Literal[2, 1]",
     "list[typing.Union[int, str]]", "list[typing.Union[str, int]]",
